@@ -318,7 +318,8 @@ class Body:
                     p = s["place"]
                     if not p["p"]:
                         d.setdefault(p["l"], []).append((bi, si, "assign", s["rv"]))
-                    else:
+                    elif p["p"][0]["k"] != "deref":
+                        # (a write through a pointer local changes the pointee, not the local)
                         d.setdefault(p["l"], []).append((bi, si, "partial", s))
                 elif s["k"] == "setdiscr":
                     d.setdefault(s["place"]["l"], []).append((bi, si, "partial", s))
@@ -327,7 +328,7 @@ class Body:
                 p = t["dest"]
                 if not p["p"]:
                     d.setdefault(p["l"], []).append((bi, "term", "call", t))
-                else:
+                elif p["p"][0]["k"] != "deref":
                     d.setdefault(p["l"], []).append((bi, "term", "partial", t))
         self._defs = d
         return d
@@ -382,7 +383,7 @@ class Facts:
         return "::tests::" in p or p.startswith("tests::")
 
     def non_test_bodies(self):
-        return [b for b in self.bodies.values() if not self.is_test_item(b)]
+        return [b for b in self.bodies.values() if not self.is_test_item(b) and b.kind != "Promoted"]
 
     def impl_self_adt(self, body):
         """ADT path of the impl block the body (or its closure root) belongs to."""
